@@ -590,6 +590,43 @@ theorem get?_ge (st : St) (h : ∀ e ∈ st.ents, e.id < st.ents.length) (j : Na
   omega
 
 /-- a new entry (id = number of entries so far) appended to the table -/
+theorem inv_append_gen (st : St) (n : Entry) (hn : n.id = st.ents.length) (hfresh : EInv n false) (h : Inv st) :
+    Inv { st with ents := st.ents ++ [n] } := by
+  refine ⟨?_, ?_, ?_⟩
+  · intro e he
+    simp only [List.length_append, List.length_singleton]
+    rcases List.mem_append.1 he with he | he
+    · exact Nat.lt_succ_of_lt (h.ids e he)
+    · simp only [List.mem_singleton] at he; subst he; rw [hn]; exact Nat.lt_succ_self _
+  · intro j hj
+    rw [get?_append]
+    have := h.pend j hj
+    obtain ⟨e, he⟩ := Option.isSome_iff_exists.1 this
+    simp [he]
+  · intro j e he
+    rw [get?_append] at he
+    cases hj : st.get? j with
+    | some e0 =>
+      rw [hj] at he
+      have he' : e0 = e := by simpa using he
+      subst he'
+      exact h.mem j e0 hj
+    | none =>
+      rw [hj] at he
+      simp only [Option.none_or] at he
+      split at he
+      · cases he
+        have hnp : j ∉ st.pending := by
+          intro hp
+          have := h.pend j hp
+          rw [hj] at this; exact absurd this (by simp)
+        simp only [hnp, decide_false]
+        exact hfresh
+      · exact absurd he (by simp)
+
+theorem einv_fresh_dir (id : Nat) : EInv ({ id := id, l := { dir := true }, r := { dir := true } } : Entry) false :=
+  ⟨fun h => by simp [hasIdChange, truthy] at h, fun h => absurd h (by simp)⟩
+
 theorem inv_append (st : St) (h : Inv st) :
     Inv { st with ents := st.ents ++ [({ id := st.ents.length } : Entry)] } := by
   have hnone := get?_ge st h.ids st.ents.length (le_refl _)
